@@ -348,7 +348,7 @@ func (ch c16) runForced(c *core.Ctx, s c16sched, idx int) {
 	// Close must return although the client stalls (nothing is sent until it has)
 	if s.State == "midmsg" || s.State == "aftercmd-partial" {
 		got := 0
-		timeout := time.After(10 * time.Second)
+		timeout := time.After(40 * time.Second)
 	waitClose:
 		for got < s.Closers {
 			select {
@@ -588,7 +588,7 @@ func (ch c16) deadTransport(c *core.Ctx, variant int) {
 	select {
 	case <-closed:
 		c.Count("close_after_dead_transport", 1)
-	case <-time.After(15 * time.Second):
+	case <-time.After(40 * time.Second):
 		dump, lib := core.ClassifyHang()
 		if len(lib) > 0 {
 			c.Violate("deadlock", "Close never returns after a command failed on a dead transport: "+strings.Join(lib, "; "), trim(dump, 3000), cs)
@@ -603,7 +603,7 @@ func (ch c16) deadTransport(c *core.Ctx, variant int) {
 		if err != nil {
 			c.Violate("serve-error", "Serve returned a non-nil error after Close", err.Error(), cs)
 		}
-	case <-time.After(10 * time.Second):
+	case <-time.After(40 * time.Second):
 		c.Violate("serve-hang", "Serve did not return after Close", "", cs)
 	}
 	c.Eval(fmt.Sprintf("dead-transport %d", variant), true)
@@ -656,7 +656,7 @@ func (ch c16) multiListener(c *core.Ctx, nl int) {
 			} else {
 				c.Count("serve_returned_nil", 1)
 			}
-		case <-time.After(10 * time.Second):
+		case <-time.After(40 * time.Second):
 			c.Violate("serve-hang", fmt.Sprintf("with %d listeners only %d Serve call(s) returned after Close", nl, i), "Close stopped only some of the accept loops", cs)
 			return
 		}
